@@ -424,7 +424,15 @@ func (x *Exec) navGet(v Value, t types.Type, path []step) Value {
 	for _, st := range path {
 		switch u := t.Underlying().(type) {
 		case *types.Struct:
-			v = v.(*Struct).Fields[st.field]
+			sv, isS := v.(*Struct)
+			if !isS {
+				// a struct owned by another module is an opaque value: a field read out of it is
+				// unknown (sound for proofs: any value; two reads are not known to agree)
+				v = x.freshValue("opaque_field", u.Field(st.field).Type())
+				t = u.Field(st.field).Type()
+				continue
+			}
+			v = sv.Fields[st.field]
 			t = u.Field(st.field).Type()
 		case *types.Array:
 			// array value = Struct of SMT arrays (one per element leaf)
